@@ -74,3 +74,21 @@ pub(crate) fn mk_reader() -> LogReader<'static> {
 	let l: &'static RwLock<Option<Reading>> = Box::leak(Box::new(RwLock::new(None)));
 	LogReader::new(l.write(), true)
 }
+
+// a Log with no files (only `overlays()` is used by the code under proof)
+pub(crate) fn mk_log() -> Log {
+	Log {
+		overlays: RwLock::new(LogOverlays::with_columns(0)),
+		appending: RwLock::new(None),
+		reading: RwLock::new(None),
+		read_queue: RwLock::default(),
+		next_record_id: AtomicU64::new(1),
+		dirty: AtomicBool::new(false),
+		log_pool: RwLock::default(),
+		cleanup_queue: RwLock::default(),
+		replay_queue: RwLock::default(),
+		path: std::path::PathBuf::new(),
+		next_log_id: AtomicU32::new(0),
+		sync: false,
+	}
+}
